@@ -1829,7 +1829,8 @@ def _path_exists(interp, path, **kw):
     """P-EXISTS: whether a path exists is an unknown of the environment"""
     axiom("P-EXISTS (file system state is unconstrained)")
     store = interp.ctx.__dict__.setdefault("_exists", {})
-    key = str(path)
+    import os as _os
+    key = _os.path.normpath(str(path))      # different spellings of a name denote the same file
     if key not in store:
         store[key] = interp.ctx.bool("exists_" + key.replace("/", "_"))
     return store[key]
@@ -2076,6 +2077,21 @@ def _path_isfile(interp, path):
 
 @model(_pathlib.Path.resolve)
 def _path_resolve(interp, path, *a, **k):
+    """P-RESOLVE: for a concrete absolute name, resolve() is the lexical normal form ('.' and
+    '..' removed); symbolic links are not modelled (native harness of C10)"""
+    if isinstance(path, _pathlib.PurePath):
+        import os as _os
+        if path.is_absolute():
+            axiom("P-RESOLVE (resolve() of an absolute name is its lexical normal form; no symbolic links)")
+            return type(path)(_os.path.normpath(str(path)))
+    return path
+
+
+@model(_pathlib.Path.absolute)
+def _path_absolute(interp, path, *a, **k):
+    """absolute() of an absolute name is the name itself ('..' is kept)"""
+    if isinstance(path, _pathlib.PurePath) and not path.is_absolute():
+        raise _engine().Unsupported("absolute() of a relative path")
     return path
 
 
